@@ -34,7 +34,9 @@ EXTENDS Naturals, Sequences, FiniteSets, TLC
 CONSTANTS N,        \* number of partial functions
           Bounds,   \* initial values of the semaphore to explore
           Modes,    \* subset of {"return", "raise", "raise_cancel"} to explore
-          Fixed
+          Fixed,
+          Wrapper   \* TRUE: called through bounded_gather(parallelism = bound) AS IT STOOD: the wrapper creates the semaphore and calls
+                    \* bounded_gather2 without holding a permit, so WithoutSemaphore.__aenter__ releases a permit nobody acquired
 
 Tasks == 1..N
 
@@ -186,7 +188,8 @@ HelperStep ==
             /\ rq' = Tail(rq) \o [i \in 1..N |-> <<"T", i>>]
             /\ gout' = "pending"
             /\ hpc' = "gather"
-            /\ UNCHANGED <<value, sq, must, gexc, wcount, hres, hexc, hval>>
+            /\ value' = IF Wrapper THEN value + 1 ELSE value
+            /\ UNCHANGED <<sq, must, gexc, wcount, hres, hexc, hval>>
        [] hpc = "gwoken" /\ gout = "ok" ->
             \* WithoutSemaphore.__aexit__ without exception: acquire again, return the results
             IF Locked(value, sq)
